@@ -270,6 +270,7 @@ type ConnSt struct {
 	EOF     bool   `json:"eof"`     // the broker closed the connection (reader saw EOF)
 	Dropped bool   `json:"dropped"` // the harness closed it
 	Done    bool   `json:"done"`    // EstablishConnection returned
+	Stalled bool   `json:"stalled"` // the harness has stopped reading from it (writes of the broker block)
 }
 
 // Event is one trace line.
